@@ -107,6 +107,7 @@ pub fn child(args: &[String]) -> i32 {
     match args[0].as_str() {
         "c02" => c02::child_main(&args[1..]),
         "c09zone" => c09::child_zone(&args[1..]),
+        "c09fork" => c09::child_fork(&args[1..]),
         "subrun" => subrun::child_main(&args[1..]),
         "c15e2e" => c15::child_e2e(&args[1..]),
         "c18" => c18::child_main(&args[1..]),
